@@ -197,6 +197,15 @@ def or_other_obligations(ctx, rule, rid, w2j, loop):
         itb = ctx.interp(rid)
         itb.reset([])
         try:
+            # state the block keeps from row to row (a per-conversion set / dict created before the loop): its creating
+            # statement at the top level of the function is run first
+            for nm_ in sorted(free - set(env)):
+                for st_ in w2j.node.body:
+                    if st_ is loop or any(x_ is loop for x_ in ast.walk(st_)):
+                        break
+                    tg_ = st_.targets[0] if isinstance(st_, ast.Assign) and len(st_.targets) == 1 else (st_.target if isinstance(st_, ast.AnnAssign) and st_.value is not None else None)
+                    if isinstance(tg_, ast.Name) and tg_.id == nm_ and not any(isinstance(n_, ast.Name) and n_.id not in ("set", "dict", "list", "frozenset") for n_ in ast.walk(st_.value)):
+                        itb.exec(ast.Assign(targets=[ast.Name(id=nm_, ctx=ast.Store())], value=st_.value, lineno=st_.lineno, col_offset=0) if isinstance(st_, ast.AnnAssign) else st_, env, w2j.module)
             itb.exec_block(stmts, env, w2j.module)
         except Raised as e:
             rule.fail(f"or_other[{desc}]", f"the block evaluates (raises {e.exc_name}{e.exc_args})", w2j.loc(stmts[0]))
@@ -213,6 +222,22 @@ def or_other_obligations(ctx, rule, rid, w2j, loop):
                        "companion is a text question <name>_other relevant when 'other' is selected in the select", w2j.loc(stmts[0]), why_fail=repr(comp_))
         else:
             rule.check(comp_ is None, f"or_other[{desc}]:companion", "no companion question without or_other", w2j.loc(stmts[0]), why_fail=repr(comp_))
+        # a second or_other select on the SAME list, later on the sheet (the block run again on what the first run left):
+        # the list is not given a second 'other', and the second select gets its own companion
+        if spec_other and "row" in env:
+            after1 = [dict(c) for c in lst]
+            env["row"] = {"name": "veg", "type": "select_one l or_other", "label": "V"}
+            if "question_name" in env:
+                env["question_name"] = "veg"
+            env.pop("specify_other_question", None)
+            try:
+                itb.exec_block(stmts, env, w2j.module)
+                comp2 = env.get("specify_other_question")
+                ok2 = lst == after1 and comp2 == {"type": "text", "name": "veg_other", "label": "Specify other.", "bind": {"relevant": "selected(../veg, 'other')"}}
+                why2 = f"list {'unchanged' if lst == after1 else 'changed'}; companion {comp2!r}"
+            except Raised as e:
+                ok2, why2 = False, f"raises {e.exc_name}{e.exc_args}"
+            rule.check(ok2, f"or_other[{desc}]:second select on the list", "the list keeps its single 'other'; the second select gets <name>_other of its own", w2j.loc(stmts[0]), why_fail=why2)
     # the shared constant is never handed out by reference into a list the loop mutates later... (value equality is what is decided here)
 
 
